@@ -125,6 +125,12 @@ func (colorizeToolS) echoResetColor(out io.Writer) { //nolint:unused //no
 //
 
 func (colorizeToolS) translate(str string, initialColor ...color.Color) string {
+	if !strings.ContainsAny(str, "<&") {
+		// no markup, nothing to translate. Don't run plain text through the
+		// html parser: it drops leading blanks (and with them the padding of
+		// an empty first line) and turns CR into LF.
+		return str
+	}
 	clr := color.FgDefault
 	for _, c := range initialColor {
 		clr = c
